@@ -123,7 +123,44 @@ def grammar_pool(n=48, seed=20260104):
     return got
 
 
-POOL = SUSPICIOUS + SUSPICIOUS_MORE + grammar_pool() + soup_pool() + [
+def fresh_default_docs():
+    """one document per category of the default database (read at run time), calling up to four
+    of its macros / environments with their declared arguments: parsed under a database built
+    anew for every parse (what LatexWalker(s) without latex_context= does), twice in a row"""
+    from pylatexenc.latexwalker import get_default_latex_context_db
+    from ..treedump import argspec_str
+    db = get_default_latex_context_db()
+
+    def args(spec):
+        out = ''
+        for a in (spec.arguments_spec_list or []):
+            t = argspec_str(a)
+            out += {'*': '*', '[': '[o]', '{': '{m}'}.get(t, '{m}' if t not in ('*', '[') else '')
+        return out
+    docs = []
+    for cat in db.categories():
+        parts = []
+        envs = [e for e in db.iter_environment_specs(categories=[cat])
+                if e.environmentname and 'verbatim' not in e.environmentname
+                and e.environmentname != 'lstlisting']
+        macs = [m for m in db.iter_macro_specs(categories=[cat])
+                if m.macroname and m.macroname.isalpha() and m.macroname not in ('verb', 'begin',
+                                                                                   'end')]
+        for e in sorted(envs, key=lambda x: x.environmentname)[:3]:
+            parts.append('\\begin{%s}%s b\\end{%s}' % (e.environmentname, args(e),
+                                                         e.environmentname))
+        with_args = [m for m in macs if m.arguments_spec_list]
+        for m in sorted(with_args, key=lambda x: x.macroname)[:3]:
+            parts.append('\\%s%s' % (m.macroname, args(m)))
+        if parts:
+            docs.append(['default-fresh', ' x '.join(parts)])
+    return docs
+
+
+FRESH_DOCS = fresh_default_docs()
+
+
+POOL = FRESH_DOCS + SUSPICIOUS + SUSPICIOUS_MORE + grammar_pool() + soup_pool() + [
     ['every', '\\mt+\\mt \\md<a>\\md x'],
     ['every', '\\mstar*\\ms \\mo[a[b]c]'],
     ['every', '\\begin{eenv}[o]{m}body\\end{eenv}\\begin{emath}x\\end{emath}'],
@@ -187,6 +224,8 @@ def run_history_here(history, table):
     labels = set()
     for i, (recipe, source, tolerant) in enumerate(history):
         try:
+            if recipe.endswith('-fresh'):
+                dbs.pop(recipe, None)       # a database of its own for every parse
             if recipe not in dbs:
                 dbs[recipe] = contexts.build(recipe)
                 snaps[recipe] = db_snapshot(dbs[recipe])     # before anything is parsed
@@ -308,7 +347,7 @@ def plan(tier, seed):
             'bounds': {'pool_documents': len(POOL), 'fresh_interpreters': len(all_jobs()),
                        'orderings': 336 * 2, 'random_histories': n, 'max_steps': maxlen},
             'required_classes': ['non-trivial', 'same-document-repeated', 'outcome:tree',
-                                 'outcome:error', 'strict-after-other-parse']}
+                                 'outcome:error', 'strict-after-other-parse', 'fresh-database-per-parse']}
 
 
 def run_shard(shard, res):
@@ -335,6 +374,12 @@ def run_shard(shard, res):
                         continue
                     h = [(doc[0], doc[1], tol), (other[0], other[1], tol), (doc[0], doc[1], tol)]
                     record(h, run_history_forked(h, table), res)
+        if k == 0:
+            for doc in FRESH_DOCS:
+                for tol in (False, True):
+                    h = [(doc[0], doc[1], tol), (doc[0], doc[1], tol)]
+                    record(h, run_history_forked(h, table), res)
+            res.label('fresh-database-per-parse')
         res.exhaustive = True
     else:
         _, n, maxlen, seed = shard
